@@ -364,6 +364,9 @@ class TransferManager(BaseManager):
         except Exception:
             logger.exception("error aborting transfer before removal : %s", transfer)
         finally:
+            # A transfer that cannot be aborted (complete, failed) can still
+            # have a remote-queue attempt in flight
+            await asyncio.gather(*transfer.cancel_tasks(), return_exceptions=True)
             self._transfers.remove(transfer)
             await self._event_bus.emit(TransferRemovedEvent(transfer))
 
